@@ -363,6 +363,74 @@ def rule_writer(ctx, fx, config):
                           "a serialization error is returned without first checking the stored I/O error", config, ctx.where(g, ln=s_.get("ln")))
 
 
+def rule_read_ahead_bounded(ctx, fx, config):
+    """LIMIT (pull bound): besides what the parser consumes, the only place that pulls bytes from the user's reader is the snapshot
+    taken for an error's snippet (`read_ahead_at_most`).  How much it may pull is a compile-time constant: the argument resolves
+    — through the ring reader's own functions and their callers — to constants, the stash length and non-wrapping subtractions /
+    `min`s of those; never to an option value (a crop radius of a million would drain a megabyte past the cap)."""
+    target = "ring_reader::RingReader::read_ahead_at_most"
+    n = [0]
+
+    def bounded(f, sym, depth, trail):
+        """list of unbounded leaves"""
+        k = sym[0]
+        if k == "const":
+            return []
+        if k == "call":
+            nm = last_seg(sym[1])
+            if nm in ("len", "capacity"):
+                return []
+            if nm in ("min",) and any(a[0] == "const" for a in sym[2]):
+                return []
+            if nm in ("saturating_sub", "checked_sub", "min", "unwrap_or", "saturating_add", "max", "saturating_mul", "from", "into", "try_from", "unwrap_or_default"):
+                out = []
+                for a in sym[2]:
+                    out += bounded(f, a, depth, trail)
+                return out
+            return ["%s: result of %s" % (trail, sym[1])]
+        if k in ("bin", "un", "cast", "field", "deref", "ref", "phi", "downcast"):
+            out = []
+            for a in sym[1:]:
+                if isinstance(a, tuple) and a and isinstance(a[0], str):
+                    out += bounded(f, a, depth, trail)
+                elif isinstance(a, (tuple, list)):
+                    for x in a:
+                        if isinstance(x, tuple) and x and isinstance(x[0], str):
+                            out += bounded(f, x, depth, trail)
+            return out
+        if k == "arg":
+            if sym[1] == 1 and sym[2] == "self":
+                return []
+            if depth >= 3:
+                return ["%s: parameter `%s` (call depth exhausted)" % (trail, sym[2])]
+            out = []
+            cs = fx.callers.get(f.npath, [])
+            if not cs:
+                return ["%s: parameter `%s` of an uncalled function" % (trail, sym[2])]
+            for g, cb in cs:
+                t = g.blocks[cb]["term"]
+                if sym[1] - 1 < len(t["args"]):
+                    with g.deep():
+                        a = g.sym_operand(t["args"][sym[1] - 1])
+                    out += bounded(g, a, depth + 1, trail + " <- " + g.name)
+            return out
+        # a local that did not resolve, a closure capture, anything else: a run-time value
+        return ["%s: `%s`" % (trail, render(sym)[:60])]
+    for g, cb in fx.callers.get(target, []):
+        if g.file.endswith("ring_reader.rs") and "tests" in g.npath:
+            continue
+        t = g.blocks[cb]["term"]
+        with g.deep():
+            a = g.sym_operand(t["args"][1])
+        n[0] += 1
+        ctx.saw(g)
+        bad = bounded(g, a, 0, g.name)
+        ctx.check(not bad, "LIMIT", "C10:LIMIT:snapshot-read-ahead-is-constant-bounded:%s" % g.name, "the snapshot's read-ahead is bounded by constants and the stash length",
+                  "the amount the error snapshot may pull from the reader depends on a run-time value (%s): with a large crop radius an error (e.g. the byte cap itself) drains far more than the cap plus a fixed allowance" % "; ".join(bad)[:300],
+                  config, ctx.where(g, cb))
+    ctx.floor("LIMIT.read-ahead-sites", n[0], 1, config)
+
+
 def run(ctx):
     for config in ctx.configs:
         fx = ctx.facts(config)
@@ -375,4 +443,5 @@ def run(ctx):
         rule_skip_end(ctx, fx, config)
         rule_discard(ctx, fx, config)
         rule_writer(ctx, fx, config)
+        rule_read_ahead_bounded(ctx, fx, config)
         rule_no_output_after_held_error(ctx, fx, config)
